@@ -135,6 +135,20 @@ Theorem C19_cli_equals_compile_text_debug : forall printable failure trace f out
 Proof. exact cli_equals_compile_text_debug. Qed.
 Print Assumptions C19_cli_equals_compile_text_debug.
 
+(* "and exits non-zero when a file does not compile, reporting syntax errors with file name and
+   position": the first source that is unreadable or that compile_text refuses ends the run with
+   exit status 1; what was written is compile_text of the sources before it; a CompilerError (syntax
+   errors are CompilerErrors) is reported as <file>:<line>:<column>:<message> *)
+Theorem C19_cli_first_failure_compiler : forall printable failure trace outfile srcs fs stdin pre it post outs,
+  all_exist fs srcs ->
+  combine srcs (contents (fs_seen fs outfile) stdin srcs) = pre ++ it :: post ->
+  Forall2 (fun it o => exists t, snd it = RText t /\ compile_text printable t = CText o) pre outs ->
+  (snd it = RBad \/ exists t, snd it = RText t /\ forall o, compile_text printable t <> CText o) ->
+  exists e, yldpc_lib printable failure trace no_flags outfile srcs fs stdin = placed outfile (concat outs) e /\ status e = 1
+    /\ (e = ECrash \/ exists l c m, e = EError (err_msg (fst it) l c m)).
+Proof. exact cli_first_failure_lib. Qed.
+Print Assumptions C19_cli_first_failure_compiler.
+
 (* exit status 0 iff every source exists, is readable and is accepted by the compiler *)
 Theorem C19_exit_status_compiler : forall printable failure trace f outfile srcs fs stdin,
   status (r_end (yldpc_lib printable failure trace f outfile srcs fs stdin)) = 0 <->
